@@ -387,18 +387,23 @@ func expectedMethods(p *gj5s.Program) map[string]*wantMethod {
 				if base == "" {
 					base = "/" + strings.ReplaceAll(f.Package(), ".", "/") + "/" + gj5s.Snake(gj5s.LowerFirst(name))
 				}
-				var pk []string
-				pkPath := ""
+				var pk, shard []string
+				pkPath, shardPath := "", ""
 				for _, k := range d.Keys {
-					if k.Primary != nil && *k.Primary {
+					if (k.Primary != nil && *k.Primary) || k.ShardKey {
 						pk = append(pk, k.Field.Name)
 						pkPath += "/:" + k.Field.Name
+						if k.ShardKey {
+							shard = append(shard, k.Field.Name)
+							shardPath += "/:" + k.Field.Name
+						}
 					}
 				}
 				sort.Strings(pk)
+				sort.Strings(shard)
 				q := f.Package() + "/" + name + "QueryService/" + name
 				out[q+"Get"] = &wantMethod{verb: "GET", path: base + "/q" + pkPath, pathParams: pk}
-				out[q+"List"] = &wantMethod{verb: "GET", path: base + "/q", query: []string{"page", "query"}}
+				out[q+"List"] = &wantMethod{verb: "GET", path: base + "/q" + shardPath, pathParams: shard, query: []string{"page", "query"}}
 				out[q+"Events"] = &wantMethod{verb: "GET", path: base + "/q" + pkPath + "/events", pathParams: pk, query: []string{"page", "query"}}
 				for _, c := range d.Commands {
 					sn := name + "CommandService"
